@@ -106,7 +106,7 @@ class HistoryMachine(RuleBasedStateMachine):
         vt = data.draw(VT, label="vt")
         self.do({"op": "add", "i": i % self.N, "k": self.key(ki), "v": v, **({"vt": vt} if vt else {}), **self._draws(data)})
 
-    @rule(i=SK, kis=st.lists(IDX, min_size=0, max_size=6), how=st.sampled_from(["list", "list", "tuple", "iter"]), data=st.data())
+    @rule(i=SK, kis=st.lists(IDX, min_size=0, max_size=6), how=st.sampled_from(["list", "list", "tuple", "iter", "reentrant"]), data=st.data())
     def update_list(self, i, kis, how, data):
         self.do({"op": "update_list", "i": i % self.N, "keys": [self.key(k) for k in kis], **({"as": how} if how != "list" else {}), **self._draws(data)})
 
